@@ -366,8 +366,11 @@ func (c *dedicatedSingleClient) SetOnInvalidations(fn func([]RedisMessage)) <-ch
 }
 
 func (c *dedicatedSingleClient) Close() {
-	c.wire.Close()
-	c.release()
+	// Close after release must not touch the wire: it may be serving another dedicated client by now.
+	if atomic.CompareAndSwapUint32(&c.mark, 0, 1) {
+		c.wire.Close()
+		c.conn.Store(c.wire)
+	}
 }
 
 func (c *dedicatedSingleClient) check() error {
